@@ -113,8 +113,8 @@ class Recorder:
 class Stub:
     """Object whose attributes are given explicitly (collaborator boundary: network, event bus, settings...)."""
 
-    def __init__(self, name, **attrs):
-        self._name = name
+    def __init__(self, _stubname, /, **attrs):
+        self._name = _stubname
         self.attrs = dict(attrs)
 
     def pyvc_getattr(self, it, name):
